@@ -290,43 +290,15 @@ class World(EventDispatcher):
             self._dead_entities.add(entity)
 
     def _clear_dead_entities(self):
-        """Finalize deletion of any entities marked as dead.
+        """Finalize deletion of any entities marked as dead."""
+        # Marks are removed one at a time, before the deletion takes
+        # place. Hence an exception (e.g. raised by a callback) does not
+        # leave stale marks that would fail at each following call
+        while self._dead_entities:
+            entity = self._dead_entities.pop()
 
-        In the interest of performance, this method duplicates code from
-        the :meth:`delete_entity` method. If that method is changed,
-        those changes should be duplicated here as well.
-        """
-        for entity in self._dead_entities:
-
-            for component_type, component in self._entities[entity].items():
-                self._components[component_type].discard(entity)
-
-                if not self._components[component_type]:
-                    del self._components[component_type]
-
-                # Event handling, all handlers stop listening, whether
-                # or not they handle on_remove
-                if hasattr(component, '__events__'):
-                    # Code replication
-                    # If dispatching is enabled, call on_remove directly
-                    # to gain performance. Otherwise an event is dispatched
-                    if (ON_REMOVE_EVENT_NAME in component.__events__
-                            and self._dispatch_enabled):
-                        getattr(component,
-                                component.__events__[ON_REMOVE_EVENT_NAME])(
-                                    entity, self)
-                    # on_remove exists but dispatching is disabled
-                    elif (ON_REMOVE_EVENT_NAME in component.__events__
-                            and not self._dispatch_enabled):
-                        self.dispatch(ON_SINGLE_DISPATCH_EVENT_NAME,
-                                      ON_REMOVE_EVENT_NAME,
-                                      component, entity, self)
-
-                    self.remove_handler(component)
-
-            del self._entities[entity]
-
-        self._dead_entities.clear()
+            for component_type in tuple(self._entities[entity]):
+                self.remove_component(entity, component_type)
 
     def remove_component(self, entity: Hashable, component_type: type[C]):
         """Remove a component from an entity, if the entity owns one.
@@ -355,9 +327,12 @@ class World(EventDispatcher):
                     removed = self._entities[entity][subtype]
                     del self._entities[entity][subtype]
 
-                # Free dict entry for an entity if empty
+                # Free dict entry for an entity if empty. An entity with
+                # no components does not exist anymore, so it cannot be
+                # awaiting deletion either
                 if not self._entities[entity]:
                     del self._entities[entity]
+                    self._dead_entities.discard(entity)
 
                 if removed is not None:
                     # No need to check if it is an handler, just check
